@@ -60,6 +60,7 @@ KERNELS = {
     "merge_journalled_entries": {"owner": "C17", "mutated": [5]},              # returns None: the result is `dest`
     "merge_indexed_journalled_entries_count": {"owner": "C17"},
     "categorical_transform": {"owner": "C06", "mutated": [0]},                 # returns None: the result is `chunk`
+    "leaky_categorical_transform": {"owner": "C06", "mutated": [0, 1, 2]},     # chunk, freetext_indices, freetext_values
     "generate_ordered_map_to_left_both_unique": {"owner": "C19", "mutated": [2]},
     "generate_ordered_map_to_left_right_unique": {"owner": "C19", "mutated": [2]},
     "ordered_inner_map_both_unique": {"owner": "C19", "mutated": [2, 3]},      # returns None
@@ -722,6 +723,16 @@ def random_c06(rng, n_cases):
         elif what == 3:
             values = values[:-1]
         chunk_n = nrows if rng.random() < 0.8 else rng.randrange(0, nrows + 2)
+        if t % 2:
+            nidx = chunk_n + 1 if rng.random() < 0.9 else rng.randrange(0, chunk_n + 2)
+            cap = coffs[ic + 1] - coffs[ic] if ic < ncols else 3
+            nval = cap if rng.random() < 0.9 else rng.randrange(0, cap + 1)
+            safe = categorical_safe(chunk_n, ic, cinds, vals, coffs, keys, index, values) and \
+                min(chunk_n, len(cinds[ic]) - 1 if ic < ncols else 0) < nidx
+            out.append(gcase("leaky_categorical_transform",
+                             [arr([0] * chunk_n), arr([0] * nidx), arr([0] * nval), {"int": ic}, arr2(cinds), arr(vals),
+                              arr(coffs), arr(keys), arr(index), arr(values)], unsafe=not safe, _from="random"))
+            continue
         out.append(gcase("categorical_transform",
                          [arr([0] * chunk_n), {"int": ic}, arr2(cinds), arr(vals), arr(coffs), arr(keys), arr(index), arr(values)],
                          unsafe=not categorical_safe(chunk_n, ic, cinds, vals, coffs, keys, index, values), _from="random"))
